@@ -26,12 +26,12 @@ MC_QUICK = ["1m1c", "2m", "1m2c", "2r1c", "2m1c_absent"]
 MC_THOROUGH = ["1m1c", "2m", "1m2c", "2r1c", "2m1c", "3m"]
 # simulation pools: (cfg, tlc seed, number of behaviours)
 SIM_QUICK = [("2m1c", 11, 300), ("1m2c", 12, 200), ("3m", 13, 200), ("2r1c", 14, 100)]
-SIM_THOROUGH = [("2m1c", 11, 800), ("1m2c", 12, 400), ("3m", 13, 500), ("2r1c", 14, 300)]
+SIM_THOROUGH = [("2m1c", 11, 600), ("1m2c", 12, 300), ("3m", 13, 400), ("2r1c", 14, 200)]
 QUICK_SIM_SLICE = 400
 # every behaviour (all interleavings) of the smallest configurations, breadth-first with a history variable
 ALL_QUICK = ["m1c"]
 ALL_THOROUGH = ["m1c", "1m1c", "m1c_init"]
-ALL_SLICE = {"m1c_init": 2000}   # 9101 behaviours; a fixed slice is replayed (process spawn + `ps` cost ~0.15 s per schedule)
+ALL_SLICE = {"m1c_init": 1200}   # 9101 behaviours; a fixed slice is replayed (process spawn + `ps` cost ~0.15 s per schedule)
 
 
 def to_schedule(rec, sid):
@@ -247,7 +247,7 @@ def run(ctx):
         if r.violated:
             raise ToolError("as-written model violates sanity invariant %s" % r.violated)
         recs = r.printed("REPLAY")
-        keys = sorted(set(x["key"] for x in recs))
+        keys = sorted(set(x["key"] for x in recs if x["kind"] == "loss"))
         f9 = [x for x in recs if x["key"] == "cleanup_stale_files>remove_file/same"]
         if not f9:
             raise ToolError("anti-vacuity: the as-written protocol no longer exhibits F9 in the model")
